@@ -592,6 +592,20 @@ def check_sim(prop, tier, seed, jobs):
             print(f"violation kind={kind} cause={cause} msg={msg}")
             print(f"VIOLATION property={prop} replay={path}")
             return 1
+    if prop == "C03" and not unlisted:
+        import engines
+        na, nfired, fail = engines.allocfail_scenarios(seed)
+        coverage["allocation_failure_scenarios"] = {"runs": na, "faults_fired": nfired, "note": "every allocation the library requests during the release of the last outside handle of a ring (2..40 members, with chords) is refused in turn; the process may die, the release must not return with the ring kept"}
+        if fail:
+            (n_, chords_, at_), (kind, cause, msg) = fail
+            os.makedirs(REPLAYS, exist_ok=True)
+            path = os.path.join(REPLAYS, f"C03-allocfail-{n_}-{chords_}-{at_}.json")
+            with open(path, "w") as f:
+                json.dump({"property": "C03", "engine": "allocfail", "kind": kind, "cause": cause, "n": n_, "chords": chords_, "at": at_, "seed": seed, "expect": {"kind": kind, "cause": cause, "msg": msg}}, f, indent=1)
+            write_evidence(prop, tier, seed, LEVEL.get(prop, "exploration"), coverage, time.time() - t0, 1)
+            print(f"violation kind={kind} cause={cause} msg={msg}")
+            print(f"VIOLATION property={prop} replay={path}")
+            return 1
     if prop in ("C03", "C04", "C10") and not unlisted:
         import engines
         nn, fail = engines.nested_scenarios(prop, tier, seed, jobs)
